@@ -19,33 +19,62 @@ Proof.
   unfold tmem in *. rewrite tget_tdel. destruct (Z.eqb n' n); auto.
 Qed.
 
-(* the three ways `move` can end *)
+(* after the pre-check the destination slot is free once the wire's own entry has been deleted (the slot was empty,
+   or it held the moved wire itself -- and then it IS the wire's own entry, by the table invariant) *)
+Lemma post_del_free : forall s w p' n',
+  Inv s -> p' < nobj s -> holds_other (owires s p') n' w = false ->
+  tmem (upd (owires s) (wparent s w) (tdel (owires s (wparent s w)) (wname s w)) p') n' = false.
+Proof.
+  intros s w p' n' Hinv Hp' Hpre. unfold holds_other in Hpre.
+  destruct (tget (owires s p') n') as [w'|] eqn:Ht.
+  - destruct (Nat.eqb_spec w' w) as [E|E]; [subst w'|discriminate].
+    destruct (i_wires s Hinv) as [_ W2]. destruct (W2 _ _ _ Hp' (tget_In _ _ _ Ht)) as [_ [Ep En]].
+    rewrite Ep, En, upd_same. unfold tmem. rewrite tget_tdel, Z.eqb_refl. reflexivity.
+  - apply tmem_after_del. unfold tmem. now rewrite Ht.
+Qed.
+
+(* parts of the state no rename / reparent ever touches *)
+Lemma move_frame : forall s w np nn,
+  let s' := fst (move s w np nn) in
+  nobj s' = nobj s /\ nwire s' = nwire s /\ nport s' = nport s /\ ochildren s' = ochildren s /\
+  wsource s' = wsource s /\ wsinks s' = wsinks s /\ oprim s' = oprim s /\
+  pkind s' = pkind s /\ pparent s' = pparent s /\ pwire s' = pwire s.
+Proof.
+  intros s w np nn. unfold move.
+  destruct (negb _); [cbn; repeat split|]. destruct (negb _); [cbn; repeat split|].
+  destruct (holds_other _ _ _); [cbn; repeat split|]. destruct (negb _); [cbn; repeat split|].
+  cbn. destruct (tmem _ _); cbn; repeat split.
+Qed.
+
+(* in a constructed netlist a move either changes nothing (and does not return Ok) or succeeds *)
 Lemma move_cases : forall s w np nn s' out,
-  move s w np nn = (s', out) ->
+  Inv s -> move s w np nn = (s', out) ->
   (s' = s /\ out <> Ok) \/
   (out = Ok /\ w < nwire s /\
    let p := wparent s w in let n := wname s w in
    let p' := match np with Some x => x | None => p end in
    let n' := match nn with Some x => x | None => n end in
-   p' < nobj s /\ tmem (owires s p') n' = false /\ tmem (owires s p) n = true /\
+   p' < nobj s /\ holds_other (owires s p') n' w = false /\ tmem (owires s p) n = true /\
    let T1 := upd (owires s) p (tdel (owires s p) n) in
+   tmem (T1 p') n' = false /\
    s' = set_owires (set_wparent (set_wname (set_owires s T1) (upd (wname s) w n')) (upd (wparent s) w p'))
                    (upd T1 p' (tput (T1 p') n' w))).
 Proof.
-  intros s w np nn s' out H. unfold move in H.
+  intros s w np nn s' out Hinv H. unfold move in H.
   destruct (Nat.ltb_spec w (nwire s)) as [Hw|Hw]; cbn [negb] in H; [|inversion H; left; split; auto; discriminate].
   destruct (Nat.ltb_spec (match np with Some x => x | None => wparent s w end) (nobj s)) as [Hp|Hp]; cbn [negb] in H;
     [|inversion H; left; split; auto; discriminate].
-  destruct (tmem (owires s _) _) eqn:Hpre in H; [inversion H; left; split; auto; discriminate|].
+  destruct (holds_other _ _ _) eqn:Hpre in H; [inversion H; left; split; auto; discriminate|].
   destruct (tmem (owires s (wparent s w)) (wname s w)) eqn:Hm; cbn [negb] in H; [|inversion H; left; split; auto; discriminate].
-  cbn in H. rewrite tmem_after_del in H by exact Hpre. inversion H; subst. right. cbn. repeat split; auto.
+  cbn in H. pose proof (post_del_free s w _ _ Hinv Hp Hpre) as Hfree. rewrite Hfree in H.
+  inversion H; subst. right. cbn. repeat split; auto.
 Qed.
 
-Lemma raise_unchanged : forall s o s' c, step s o = (s', Raise c) -> s' = s.
+Lemma raise_unchanged : forall s o s' c, Inv s -> step s o = (s', Raise c) -> s' = s.
 Proof.
-  intros s o s' c H.
+  intros s o s' c Hinv H.
   assert (MV : forall w np nn, move s w np nn = (s', Raise c) -> s' = s).
-  { intros w np nn HM. apply move_cases in HM. destruct HM as [[E _]|[E _]]; [auto|discriminate]. }
+  { intros w np nn HM. apply move_cases in HM; auto. destruct HM as [[E _]|[E _]]; [auto|discriminate]. }
   destruct o as [[p|] n prim|p n width|o n w|o n w|o n w|w n|w p|w p n]; cbn [step] in H; eauto.
   - unfold new_logic in H. destruct (negb (p <? nobj s)); [inversion H; subst; auto|].
     destruct (tmem (ochildren s p) n); inversion H; subst; auto.
@@ -71,8 +100,8 @@ Proof.
     destruct (Nat.ltb_spec w (nwire s)); [|lia]. cbn [negb].
     rewrite <- Ep, <- En.
     destruct (Nat.ltb_spec p' (nobj s)); [|lia]. cbn [negb].
-    unfold wire_conflict in Hwc. unfold tmem at 1. destruct (tget (owires s p') n') as [w'|] eqn:Ht; [|discriminate].
-    destruct (Nat.eqb w' w); [discriminate|]. inversion Hwc; reflexivity. }
+    unfold wire_conflict in Hwc. unfold holds_other. destruct (tget (owires s p') n') as [w'|] eqn:Ht; [|discriminate].
+    destruct (Nat.eqb w' w); [discriminate|]. cbn [negb]. inversion Hwc; reflexivity. }
   destruct o as [[p|] n prim|p n width|o n w|o n w|o n w|w n|w p|w p n]; cbn [step conflict_of valid_op] in *.
   - unfold new_logic. destruct (Nat.ltb_spec p (nobj s)); [|lia]. cbn [negb].
     destruct (tmem (ochildren s p) n); [inversion Hc; reflexivity | discriminate].
@@ -93,17 +122,17 @@ Qed.
 
 (* ---------------------------------------------------------------- a raising call names an existing item *)
 Lemma raise_names_existing : forall s o s' c,
-  all_registered s -> step s o = (s', Raise c) -> names_existing s c.
+  Inv s -> all_registered s -> step s o = (s', Raise c) -> names_existing s c.
 Proof.
-  intros s o s' c Hreg H.
+  intros s o s' c Hinv Hreg H.
   assert (MV : forall w np nn, move s w np nn = (s', Raise c) -> names_existing s c).
   { intros w np nn HM. unfold move in HM.
     destruct (Nat.ltb_spec w (nwire s)) as [Hw|Hw]; cbn [negb] in HM; [|inversion HM].
-    destruct (negb _); [inversion HM|].
-    destruct (tmem (owires s _) _) eqn:Hpre in HM.
-    - inversion HM; subst. cbn. now apply tmem_true.
+    destruct (Nat.ltb_spec (match np with Some x => x | None => wparent s w end) (nobj s)) as [Hp|Hp]; cbn [negb] in HM; [|inversion HM].
+    destruct (holds_other _ _ _) eqn:Hpre in HM.
+    - inversion HM; subst. cbn. unfold holds_other in Hpre. destruct (tget _ _) as [w'|]; [eauto|discriminate].
     - destruct (tmem (owires s (wparent s w)) (wname s w)) eqn:Hm; cbn [negb] in HM.
-      + cbn in HM. rewrite tmem_after_del in HM by exact Hpre. inversion HM.
+      + cbn in HM. rewrite (post_del_free s w _ _ Hinv Hp Hpre) in HM. inversion HM.
       + exfalso. specialize (Hreg w Hw). unfold registered in Hreg. unfold tmem in Hm. rewrite Hreg in Hm. discriminate. }
   assert (AP : forall k o0 n w0, add_port s k o0 n w0 = (s', Raise c) -> names_existing s c).
   { intros k o0 n w0 HA. unfold add_port in HA. destruct (negb _); [inversion HA|].
@@ -124,9 +153,7 @@ Proof.
   assert (AP : forall kd o0 n w, tget (ochildren (fst (add_port s kd o0 n w)) p) k = Some c).
   { intros. unfold add_port. destruct (negb _); [exact Ht|]. destruct (_ && _ && _); exact Ht. }
   assert (MV : forall w np nn, tget (ochildren (fst (move s w np nn)) p) k = Some c).
-  { intros. destruct (move s w np nn) as [s' out] eqn:E. apply move_cases in E.
-    destruct E as [[E _]|[_ [_ E]]]; cbn [fst]; [subst; exact Ht|].
-    cbn in E. destruct E as [_ [_ [_ E]]]. subst s'. exact Ht. }
+  { intros. destruct (move_frame s w np nn) as [_ [_ [_ [E _]]]]. rewrite E. exact Ht. }
   destruct o as [[p0|] n0 prim|p0 n0 width|o n0 w|o n0 w|o n0 w|w n0|w p0|w p0 n0]; cbn [step]; auto.
   - unfold new_logic. destruct (negb _); [exact Ht|]. destruct (tmem _ _); [exact Ht|]. cbn.
     rewrite upd_other by lia. now apply tget_upd_tput_keep.
@@ -143,24 +170,22 @@ Proof.
     unfold upd. destruct (Nat.eqb_spec x w) as [E|E]; [subst x|exact Hs].
     rewrite Hs in *. cbn in Hc. rewrite andb_true_r in Hc. rewrite Hc. reflexivity. }
   assert (MV : forall w np nn, wsource (fst (move s w np nn)) x = Some q).
-  { intros. destruct (move s w np nn) as [s' out] eqn:E. apply move_cases in E.
-    destruct E as [[E _]|[_ [_ E]]]; cbn [fst]; [subst; exact Hs|].
-    cbn in E. destruct E as [_ [_ [_ E]]]. subst s'. exact Hs. }
+  { intros. destruct (move_frame s w np nn) as [_ [_ [_ [_ [E _]]]]]. rewrite E. exact Hs. }
   destruct o as [[p0|] n0 prim|p0 n0 width|o n0 w|o n0 w|o n0 w|w n0|w p0|w p0 n0]; cbn [step]; auto.
   - unfold new_logic. destruct (negb _); [exact Hs|]. destruct (tmem _ _); exact Hs.
   - unfold new_wire. destruct (negb _); [exact Hs|]. destruct (tmem _ _); [exact Hs|]. cbn.
     rewrite upd_other by lia. exact Hs.
 Qed.
 
-Lemma wires_stay_step : forall s o, subject_registered s o -> wires_stay s o (exec s o).
+Lemma wires_stay_step : forall s o, Inv s -> subject_registered s o -> wires_stay s o (exec s o).
 Proof.
-  intros s o Hreg p k x Hp Ht Hsub. unfold exec.
+  intros s o Hinv Hreg p k x Hp Ht Hsub. unfold exec.
   assert (AP : forall kd o0 n w, tget (owires (fst (add_port s kd o0 n w)) p) k = Some x).
   { intros. unfold add_port. destruct (negb _); [exact Ht|]. destruct (_ && _ && _); exact Ht. }
   assert (MV : forall w np nn, registered s w -> Some w <> Some x -> tget (owires (fst (move s w np nn)) p) k = Some x).
-  { intros w np nn Hr Hne. destruct (move s w np nn) as [s' out] eqn:E. apply move_cases in E.
+  { intros w np nn Hr Hne. destruct (move s w np nn) as [s' out] eqn:E. apply move_cases in E; auto.
     destruct E as [[E _]|[_ [_ E]]]; cbn [fst]; [subst; exact Ht|].
-    cbn in E. destruct E as [_ [_ [_ E]]]. subst s'. cbn.
+    cbn in E. destruct E as [_ [_ [_ [_ E]]]]. subst s'. cbn.
     apply tget_upd_tput_keep. unfold upd. destruct (Nat.eqb_spec p (wparent s w)) as [E|E]; [|exact Ht].
     rewrite tget_tdel. destruct (Z.eqb_spec k (wname s w)) as [E2|E2]; [|rewrite <- E; exact Ht].
     exfalso. apply Hne. unfold registered in Hr. rewrite <- E, <- E2 in Hr. congruence. }
@@ -179,9 +204,7 @@ Proof.
   assert (AP : forall kd o0 n w, nobj s <= nobj (fst (add_port s kd o0 n w)) /\ nwire s <= nwire (fst (add_port s kd o0 n w))).
   { intros. unfold add_port. destruct (negb _); [cbn; lia|]. destruct (_ && _ && _); cbn; lia. }
   assert (MV : forall w np nn, nobj s <= nobj (fst (move s w np nn)) /\ nwire s <= nwire (fst (move s w np nn))).
-  { intros. destruct (move s w np nn) as [s' out] eqn:E. apply move_cases in E.
-    destruct E as [[E _]|[_ [_ E]]]; cbn [fst]; [subst; lia|].
-    cbn in E. destruct E as [_ [_ [_ E]]]. subst s'. cbn. lia. }
+  { intros. destruct (move_frame s w np nn) as [E1 [E2 _]]. rewrite E1, E2. lia. }
   destruct o as [[p0|] n0 prim|p0 n0 width|o n0 w|o n0 w|o n0 w|w n0|w p0|w p0 n0]; cbn [step]; auto.
   - unfold new_logic. destruct (negb _); [cbn; lia|]. destruct (tmem _ _); cbn; lia.
   - cbn. lia.
